@@ -154,6 +154,12 @@ def oracle(case, notes=None):
                 notes["unjudgeable_optimiser"] = notes.get("unjudgeable_optimiser", 0) + 1
             if cname in ("NormalDistribution", "LogNormalDistribution"):
                 return ({"cls": cname, "clause": "loses-vs-true"}, "log-likelihood %.6f after fit < %.6f at the generating parameters" % (ll_fit, ll_true))
+            if cname == "WeibullDistribution" and ll_fit < ll_true - 1.0:
+                # 3-parameter Weibull, every parameter free: a loss of more than one unit is no optimiser tolerance (measured on the
+                # unchanged tree: 27 of 108 samples of 2000 points with shape 0.8-1.1, tens to hundreds of units; listed as a known finding)
+                return ({"cls": cname, "clause": "loses-vs-true", "free": "all"},
+                        "WeibullDistribution(%s).fit(x), %d observations generated with %r: log-likelihood %.3f at the fitted parameters %r < %.3f at the generating parameters"
+                        % ("start %r" % case["start"] if case.get("start") else "default start", len(x), th, ll_fit, fit, ll_true))
     # scale equivariance
     try:
         fit_c = fit_params(cname, c * x, start)
@@ -256,6 +262,10 @@ def run(ctx):
                           ("ExponentiatedWeibullDistribution", {"alpha": rng.uniform(0.08, 0.15), "beta": rng.uniform(1.0, 2.0), "delta": rng.uniform(1, 3)}),
                           ("LogNormalDistribution", {"mu": rng.uniform(2.0, 2.8), "sigma": rng.uniform(0.2, 0.5)})):
             cases.append({"cls": cname, "theta": th, "n": rng.choice([1000, 3000]), "seed": rng.randrange(10 ** 6), "c": rng.choice([0.5, 2.0]), "start": dict(th)})
+    # EVERY run: the 3-parameter Weibull with shape close to (or below) one at the regular end of the claimed region
+    for th_, sd_ in (({"alpha": 0.7, "beta": 0.8, "gamma": 0.55}, 3), ({"alpha": 1.5, "beta": 0.8, "gamma": 0.8}, 1), ({"alpha": 3.0, "beta": 0.8, "gamma": 0.3}, 2),
+                     ({"alpha": 1.5, "beta": 1.0, "gamma": 0.55}, 1), ({"alpha": 0.7, "beta": 1.1, "gamma": 0.3}, 2)):
+        cases.append({"cls": "WeibullDistribution", "theta": th_, "n": 2000, "seed": sd_, "c": 2.0, "start": None, "mle_weights": None})
     dist = {}
     for c in cases:
         dist[c["cls"]] = dist.get(c["cls"], 0) + 1
